@@ -334,6 +334,10 @@ def _identity_eq(it, a, b):
 
 def _eq(it, a, b):
     """`==` -> python bool or z3 Bool"""
+    if (isinstance(a, Opaque) or isinstance(b, Opaque)) and hasattr(it.world, "eq"):
+        r = it.world.eq(it, a, b)
+        if r is not NotImplemented:
+            return r
     if (isinstance(a, Opaque) and a.kind == "symref") or (isinstance(b, Opaque) and b.kind == "symref"):
         return _identity_eq(it, a, b)  # disposables/observers do not define __eq__
     if _is_private_sentinel(a) or _is_private_sentinel(b):
@@ -809,6 +813,8 @@ def dict_method(it, d: DictObj, name):
     if name in ("pop", "setdefault", "clear", "update", "popitem"):
         d.hist = None
     def get(it_, args, kw):
+        if not d.symbolic and not d.d:
+            return args[1] if len(args) > 1 else None  # an empty dict has no key, whatever the key is
         k = hashable(it, args[0])
         return d.d.get(k, args[1] if len(args) > 1 else None)
 
